@@ -14,10 +14,18 @@ func TestSmoke(t *testing.T) {
 		name string
 		run  func() *Result
 	}{
-		{"gm", func() *Result { return Run(GMClient(p, "c"), GMServer(p, "s"), Script{ClientSend: msgC, ServerSend: msgS, ClientFrags: []int{1, 1000, 17000}}) }},
-		{"auto-gm", func() *Result { return Run(GMClient(p, "c"), AutoServer(p, p.RSASrv, "s"), Script{ClientSend: msgC, ServerSend: msgS}) }},
-		{"auto-tls", func() *Result { return Run(TLSClient(p, "c"), AutoServer(p, p.RSASrv, "s"), Script{ClientSend: msgC, ServerSend: msgS}) }},
-		{"tls-ec", func() *Result { return Run(TLSClient(p, "c"), TLSServer(p, p.ECSrv, "s"), Script{ClientSend: msgC, ServerSend: msgS}) }},
+		{"gm", func() *Result {
+			return Run(GMClient(p, "c"), GMServer(p, "s"), Script{ClientSend: msgC, ServerSend: msgS, ClientFrags: []int{1, 1000, 17000}})
+		}},
+		{"auto-gm", func() *Result {
+			return Run(GMClient(p, "c"), AutoServer(p, p.RSASrv, "s"), Script{ClientSend: msgC, ServerSend: msgS})
+		}},
+		{"auto-tls", func() *Result {
+			return Run(TLSClient(p, "c"), AutoServer(p, p.RSASrv, "s"), Script{ClientSend: msgC, ServerSend: msgS})
+		}},
+		{"tls-ec", func() *Result {
+			return Run(TLSClient(p, "c"), TLSServer(p, p.ECSrv, "s"), Script{ClientSend: msgC, ServerSend: msgS})
+		}},
 		{"gm-vs-tls", func() *Result { return Run(GMClient(p, "c"), TLSServer(p, p.RSASrv, "s"), Script{ClientSend: msgC}) }},
 	} {
 		r := tc.run()
